@@ -100,5 +100,30 @@ CHECKS["C08"] = dict(
     title="construct once / destroy once / storage returned", level="model_checking", engine="E2",
     claim=("The live-object registry (construct-over-live, use/assign/destroy of a dead object), the allocation ledger (unknown/double/size-mismatched deallocate, outstanding blocks/elements when the pool dies) "
            "and the 0xA5 pre-fill oracle (sizing constructors and reextent must not write trivially-default-constructible elements) are evaluated on every transition of the E2 search over the full alphabet."),
-    jobs=lambda tier: hist_jobs("C08", tier), rule=HIST_RULE + " Reported for C08: registry/ledger/leak oracles on any transition; for int elements the model holds the allocator's pre-fill pattern for never-written elements.", assumptions=HIST_ASSUME,
+    jobs=lambda tier: hist_jobs("C08", tier) + alloc_jobs("C08", tier, combos=[(0, 1, 0, 0), (1, 0, 1, 0), (1, 1, 1, 1)]), rule=HIST_RULE + " The ledger keeps separate books per allocator instance: the search is repeated with a stateful allocator (three propagation-trait configurations, equal and unequal instances) so that a block released through the wrong instance is visible. Reported for C08: registry/ledger/leak oracles on any transition; for int elements the model holds the allocator's pre-fill pattern for never-written elements.", assumptions=HIST_ASSUME,
+)
+
+
+def alloc_jobs(prop, tier, cfg="san", combos=None):
+    jobs = []
+    combos = combos or [(ca, ma, s, 0) for ca in (0, 1) for ma in (0, 1) for s in (0, 1)] + [(0, 0, 0, 1), (1, 1, 1, 1)]
+    dims = (2,) if tier == "quick" else (1, 2, 3)
+    for d in dims:
+        for (ca, ma, s, f) in combos:
+            depth = 3 if tier == "quick" else (4 if d <= 2 else 3)
+            jobs.append(Job("histmc", cfg=cfg, defs=["-DHM_D=%d" % d, "-DHM_ELEM=0", "-DHM_ALLOC", "-DHM_CA=%d" % ca, "-DHM_MA=%d" % ma, "-DHM_S=%d" % s, "-DHM_SOCCC=%d" % f],
+                            args=["--tier=" + tier, "--prop=" + prop, "--depth=%d" % depth]))
+    return jobs
+
+
+CHECKS["C10"] = dict(
+    title="allocator provenance and propagation", level="model_checking", engine="E2",
+    claim=("The E2 history search is re-instantiated for a stateful allocator with every combination of propagate_on_container_{copy_assignment,move_assignment,swap} (plus select_on_container_copy_construction "
+           "returning a fresh instance), with slots living on equal AND unequal instances; after every transition get_allocator() is compared with the container-requirements model, every owned block must have been "
+           "produced by the allocator the slot reports (provenance), and every deallocate must go through an equal instance (ledger)."),
+    jobs=lambda tier: alloc_jobs("C10", tier),
+    rule=HIST_RULE + " C10 mode: allocator ids #1/#2 (default-constructed #0), 10 trait configurations, extra letters Arr(b,alloc#j), Arr(std::move(b),alloc#j), element-wise move assignment between unequal non-propagating "
+         "instances; swap between unequal non-propagating instances is excluded (undefined for every allocator-aware container). For assignments from views/ranges/other element types the property does not fix the resulting "
+         "allocator: the model adopts the observed id and only provenance and the ledger are checked.",
+    assumptions=HIST_ASSUME[:1] + ["container-requirements allocator model (harness/histmc.cpp, HM_ALLOC)", "g++ 12 -O0 ASan+UBSan, assertions enabled"],
 )
